@@ -159,6 +159,19 @@ def judge(case):
                     viol.append("%s layout: generated function: %s | inputs=%r | %s" % (layout, msg, common.short_env(env), text))
             if not same:
                 viol.append("%s layout: generated function gave %r, evaluator gave %r | inputs=%r | %s" % (layout, b, a, common.short_env(env), text))
+            elif k < 2 and not seeded:
+                # the same call with further keyword arguments the experiment does not read (a whole request splatted in), some
+                # of them named almost like its fields: both sides treat them alike
+                more = dict(env)
+                for n in list(env):
+                    for x in (n + "s", "p" + n, n + "_", n[:-1] if len(n) > 2 else n + "x", n + "2"):
+                        if x not in M.all_fields(prog) and x.isidentifier() and x not in gen.K1_NAMES:
+                            more[x] = "other"
+                more.update({"request_id": "r-1", "context": {"a": 1}})
+                a2, b2 = _call(ev, more, seeded, k), _call(fn, more, seeded, k)
+                if not (a2[0] == b2[0] and (sut.same_value(a2[1], b2[1]) if a2[0] == "group" else a2[1] == b2[1])):
+                    viol.append("%s layout: with extra keyword arguments %r the generated function gave %r, the evaluator %r | inputs=%r | %s"
+                                % (layout, sorted(set(more) - set(env)), b2, a2, common.short_env(env), text))
     # rendering is repeatable: one generator asked twice, and another generator on the same parsed AST, emit the same text
     try:
         _, same = common.rendered_again(text, prog["name"])
